@@ -105,6 +105,21 @@ Theorem C18_limit :
     run_events o what evs nb = (map (block_of o what) (take_limit o nb evs), nb + nlen (take_limit o nb evs)).
 Proof. exact run_events_rules. Qed.
 
+(* `ns:path` and `VAR=VALUE` are cut at the first separator *)
+Theorem C18_split_once :
+  forall sep s a b, split_once sep s = Some (a, b) -> s = a ++ sep :: b /\ ~ In sep a.
+Proof. exact split_once_spec. Qed.
+
+Theorem C18_parse_i64_range :
+  forall s z, parse_i64 s = Some z -> (-9223372036854775808 <= z <= 9223372036854775807)%Z.
+Proof. exact parse_i64_range. Qed.
+
+Example C18_parse_define_examples :
+  map parse_define [B "x=+5"; B "x=9223372036854775808"; B "x=1.2.3"; B "x=1.5e3"; B "x=a=b"; B "x"; B "x=true"]
+  = [Some (B "x", XInt 5%Z); Some (B "x", XBytes (B "9223372036854775808")); Some (B "x", XBytes (B "1.2.3"));
+     Some (B "x", XFloat (B "1.5e3")); Some (B "x", XBytes (B "a=b")); None; Some (B "x", XBool true)].
+Proof. vm_compute. reflexivity. Qed.
+
 (* non-vacuity: a terminal state is reachable (2 files, a producer line, 2 workers, capacity 10),
    with the blocks of the two files interleaved *)
 Example C18_example_run :
@@ -138,5 +153,7 @@ Print Assumptions C18_run_bounded.
 Print Assumptions C18_threads_positive.
 Print Assumptions C18_threads_pinned_refuted.
 Print Assumptions C18_params.
+Print Assumptions C18_split_once.
+Print Assumptions C18_parse_i64_range.
 Print Assumptions C18_render.
 Print Assumptions C18_limit.
